@@ -126,6 +126,10 @@ class ProcessWorker(Worker):
                     self._result = self._comms.parent_end.get()
                 except queue.Empty:
                     break
+                except Exception:
+                    # the message could not be received: it was cut short (child killed while sending) or its content cannot be rebuilt in this process
+                    logger.debug('Could not receive a message from the child', exc_info=1)
+                    break
 
             if self._result is None:
                 self._result = (False, None)
